@@ -1,5 +1,7 @@
 //go:build verif
 
+//go:debug randseednop=0
+
 package rueidis
 
 // Entry point of the simulation harness for package rueidis. This file lives in
@@ -10,6 +12,7 @@ import (
 	"encoding/json"
 	"flag"
 	"fmt"
+	mrand "math/rand"
 	"os"
 	"runtime"
 	"runtime/debug"
@@ -192,6 +195,9 @@ func TestVerif(t *testing.T) {
 
 func runOne(t *testing.T, sc *scenario, seed uint64, plan any) (out *Outcome) {
 	out = &Outcome{Seed: seed, Scenario: sc.name}
+	// cluster.go shuffles its refresh candidates with the global math/rand source: seed it per run
+	// (effective because of the go:debug randseednop=0 directive above)
+	mrand.Seed(int64(seed))
 	start := time.Now()
 	_ = start
 	func() {
